@@ -57,6 +57,9 @@ func init() {
 		{"C07", "adder", props.C07adder},
 		{"C05", "adder", props.C07adder},
 		{"C17", "garble", props.C01},
+		{"C04", "constbalance", props.ConstBalance},
+		{"C03", "constbalance", props.ConstBalance},
+		{"C05", "constbalance", props.ConstBalance},
 		{"C10", "narrowcounter", props.NarrowCounters("gmw", "circuit")},
 		{"C06", "retained", props.RetainedCallerSlices("ot")},
 		{"C18", "retained", props.RetainedCallerSlices("ot", "sha2pc")},
